@@ -487,10 +487,28 @@ def whole_string_equality(prog, rule):
                                    key='uncompared')
             return user
 
-        def on_exit(user, ctx, ret, ev, name=name):
-            if ret is None or ctx.const_of(ret) != 1:
+        def on_exit(user, ctx, ret, ev, name=name, akey=akey):
+            if ret is None:
                 return
-            at = ctx.atoms()
+            cv = ctx.const_of(ret)
+            if cv is not None and cv != 1:
+                return
+            at = dict(ctx.atoms())
+            if cv is None:
+                # `return <condition>;`: the answer is TRUE where the condition holds -- what the condition's own
+                # conjuncts establish counts as established
+                from .cfg import _forced_leaves, _is_logical
+                x = ret
+                while isinstance(x, dict) and x.get('k') in ('paren', 'cast'):
+                    x = x['e']
+                leaves = _forced_leaves(x, True, ctx.env) if _is_logical(x) else [(x, True)]
+                for leaf, truth in leaves:
+                    a2, s2 = norm_cond(leaf)
+                    if a2 is None:
+                        continue
+                    k2 = akey(a2, lambda e: None)
+                    if k2 is not None:
+                        at[k2] = (s2 == truth)
             if not any(k[0] == 'a-exhausted' and v is True for k, v in at.items()):
                 ctx.report('%s answers TRUE without the DBusString being exhausted' % name, ev['line'], key='a-left')
             if name.endswith('c_str'):
@@ -998,3 +1016,60 @@ def clocks_named(prog, rule):
             rule.violation(key, fname, U, f.line, '%s reads %s' % (fname, ', '.join(ids) or 'no clock'))
         else:
             rule.ok(key, {'clock_gettime': ids, 'gettimeofday': len(wall)})
+
+
+def range_compare_covers_range(prog, rule):
+    """_dbus_string_equal_substring compares exactly the `a_len` bytes it was asked about: its end pointer is the start
+    cursor plus the length (plus k) and the loop runs while the cursor !=/< end (k must be 0) or <= end (k must be -1)."""
+    from .cfg import is_ref, written_lvalues, estr, norm_cond
+    S = 'dbus/dbus-string.c'
+    fn = prog.fn('_dbus_string_equal_substring', S)
+    lenp = [p for p in fn.params if p['name'] == 'a_len'] or [p for p in fn.params if (p.get('t') or '') == 'int'][1:2]
+    if not lenp:
+        raise AnalysisBroken('_dbus_string_equal_substring: length parameter not found')
+    lenid = lenp[0]['id']
+
+    def lin(e, sign=1, acc=None):
+        acc = {} if acc is None else acc
+        while isinstance(e, dict) and e.get('k') in ('paren', 'cast'):
+            e = e['e']
+        if isinstance(e, dict) and e.get('k') == 'int':
+            acc['#'] = acc.get('#', 0) + sign * e['v']
+        elif isinstance(e, dict) and e.get('k') == 'bin' and e['op'] in ('+', '-'):
+            lin(e['l'], sign, acc)
+            lin(e['r'], sign if e['op'] == '+' else -sign, acc)
+        elif isinstance(e, dict) and is_ref(e) and 'id' in e:
+            acc[e['id']] = acc.get(e['id'], 0) + sign
+        else:
+            acc['?' + estr(e)] = acc.get('?' + estr(e), 0) + sign
+        return acc
+    # the loop: header condition compares two pointer locals
+    loops = [(h, b) for h, b in natural_loops(fn)]
+    found = None
+    for h, body in loops:
+        t = fn.blocks[h].get('term')
+        if not t or not isinstance(t.get('cond'), dict):
+            continue
+        c = t['cond']
+        while c.get('k') in ('paren', 'cast'):
+            c = c['e']
+        if c.get('k') == 'bin' and c['op'] in ('!=', '<', '<=') and is_ref(c['l']) and is_ref(c['r']):
+            found = (c['l'], c['op'], c['r'], t.get('line'))
+    if not found:
+        raise AnalysisBroken('_dbus_string_equal_substring: comparison loop not found')
+    cur, op, end, line = found
+    defs = [rhs for b, i, ev in fn.events() for lhs, how, rhs in written_lvalues(ev)
+            if (is_ref(lhs) or 'k' not in lhs) and lhs.get('id') == end['id'] and how in ('=', 'decl') and rhs is not None]
+    key = '_dbus_string_equal_substring:compares-a_len-bytes'
+    if len(defs) != 1:
+        raise AnalysisBroken('_dbus_string_equal_substring: end pointer has %d definitions' % len(defs))
+    form = lin(defs[0])
+    k = form.pop('#', 0)
+    ok_shape = form == {cur['id']: 1, lenid: 1}
+    n_iter_off = k + (1 if op == '<=' else 0)
+    if not ok_shape or n_iter_off != 0:
+        rule.violation(key, fn.name, S, line, 'the loop runs while %s %s %s with %s = %s: it compares %s bytes, not a_len' % (
+            cur['name'], op, end['name'], end['name'], estr(defs[0]),
+            ('a_len%+d' % n_iter_off) if ok_shape else 'an unrecognised number of'))
+    else:
+        rule.ok(key)
